@@ -139,6 +139,7 @@ func init() {
 			rules.S5(rc)
 			rules.S9(rc)
 			rules.S12(rc)
+			rules.L0(rc, func(fn string) bool { return !strings.Contains(fn, "prepData") })
 		},
 	})
 	register(&Property{
@@ -237,6 +238,8 @@ func init() {
 			rules.SP(rc, "C08", 6)
 			rules.EC(rc, fileFilterName("defaultengine_mapreduce.go", "defaultengine_argmethods.go", "dense_reduction_methods.go", "dense_argmethods.go", "api_reduction.go", "dense_mapreduce.go"), 14)
 			rules.LGuards(rc, "C08")
+			rules.PI(rc, 50)
+			rules.K12(rc, 80)
 		},
 	})
 	register(&Property{
@@ -321,6 +324,11 @@ func init() {
 			rules.O8f(rc, lin, 0)
 			rules.P2(rc, lin, 15)
 			rules.EC(rc, fileFilterName("defaultengine_linalg.go", "dense_linalg.go", "api_arith.go"), 20)
+			// the general contraction permutes its operands physically: the copying transpose kernels
+			rules.K1w(rc, func(stem string) bool { return strings.Contains(stem, "denseTranspose") }, 4)
+			rules.T8(rc)
+			rules.T9(rc)
+			rules.PI(rc, 50)
 		},
 	})
 	register(&Property{
@@ -384,6 +392,10 @@ func init() {
 				return false
 			}, 4)
 			rules.LGuards(rc, "C14")
+			// the encoders decide "write by logical content" on IsMaterializable/RequiresIterator: the
+			// predicates and the view marker the view constructors leave behind
+			rules.S9(rc)
+			rules.L0(rc, func(fn string) bool { return !strings.Contains(fn, "prepData") })
 			rules.LF(rc, 20)
 			rules.S14(rc)
 			rules.K3(rc, fileFilter("dense_io.go", "dense_mask_filling.go"), 2, 25)
@@ -595,6 +607,7 @@ func init() {
 			rules.K11(rc)
 			rules.K1op(rc, []string{"api_arith.go", "api_cmp.go", "api_unary.go", "api_minmax.go", "dense_arith.go", "dense_cmp.go", "defaultengine_arith.go", "defaultengine_cmp.go", "defaultengine_unary.go", "defaultengine_minmax.go"}, 90)
 			rules.K4(rc, []string{"eng_arith.go", "eng_minmaxbetween.go", "eng_cmp.go", "eng_unary.go"}, 1000)
+			rules.K12(rc, 80)
 		},
 	})
 }
